@@ -304,6 +304,10 @@ class World:
     def remove_kind(self, kind: Kind) -> None:
         self.kinds.pop(kind.key, None)
 
+    def _preferred(self, group: str, versions: set[str]) -> str:
+        want = getattr(self, 'preferred', {}).get(group)
+        return want if want in versions else sorted(versions)[0]
+
     def _discovery(self, path: str) -> tuple[int, dict, Any] | None:
         if path == '/version':
             return 200, {}, {'major': '1', 'minor': '30', 'gitVersion': 'v1.30.0-fake'}
@@ -316,7 +320,7 @@ class World:
                     groups.setdefault(k.group, set()).add(k.version)
             return 200, {}, {'kind': 'APIGroupList', 'groups': [
                 {'name': g, 'versions': [{'groupVersion': f'{g}/{v}', 'version': v} for v in sorted(vs)],
-                 'preferredVersion': {'groupVersion': f'{g}/{sorted(vs)[0]}', 'version': sorted(vs)[0]}}
+                 'preferredVersion': {'groupVersion': f'{g}/{self._preferred(g, vs)}', 'version': self._preferred(g, vs)}}
                 for g, vs in sorted(groups.items())]}
         parts = path.strip('/').split('/')
         group_version: tuple[str, str] | None = None
